@@ -56,10 +56,13 @@ PKeys(p) == DOMAIN p.ref
 \* ---- the lane -----------------------------------------------------------
 \* key k now holds v (v = 0: its entry was removed; a remove of an absent key is recorded too:
 \* the consumer may legitimately be told about it)
+\* (a value equal to the youngest one adds nothing that could be matched: not recorded twice)
+PAbsent(x) == x = 0 \/ x = CLR
+PAppend(a, v) == IF a[Len(a)] = v \/ (v = 0 /\ PAbsent(a[Len(a)])) THEN a ELSE Append(a, v)
 PLaneUpd(p, k, v) ==
     [p EXCEPT !.ref[k] = v,
               !.cons = [c \in DOMAIN p.cons |->
-                          IF p.cons[c].active THEN [p.cons[c] EXCEPT !.adm[k] = Append(@, v)]
+                          IF p.cons[c].active THEN [p.cons[c] EXCEPT !.adm[k] = PAppend(@, v)]
                           ELSE [p.cons[c] EXCEPT !.adm[k] = << v >>]]]
 
 PLaneRem(p, k) == PLaneUpd(p, k, 0)
@@ -115,9 +118,12 @@ PObs(p, c, op, k, v) ==
     ELSE IF op = "rem" THEN PObsKeyed(p, c, k, 0)
     ELSE [p EXCEPT !.cons[c].ok = FALSE]
 
-\* how far the slowest subscriber lags (state constraint for model checking)
-PLag(p) == LET S == {Len(p.cons[c].adm[k]) - 1 : c \in DOMAIN p.cons, k \in PKeys(p)} IN
-           CHOOSE x \in S : \A y \in S : y <= x
+\* how far the slowest subscriber lags: outstanding values summed over the keys
+\* (state constraint for model checking)
+RECURSIVE PSum(_, _)
+PSum(f, S) == IF S = {} THEN 0 ELSE LET x == CHOOSE y \in S : TRUE IN f[x] + PSum(f, S \ {x})
+PLagOf(p, c) == PSum([k \in PKeys(p) |-> Len(p.cons[c].adm[k]) - 1], PKeys(p))
+PLag(p) == LET S == {PLagOf(p, c) : c \in DOMAIN p.cons} IN CHOOSE x \in S : \A y \in S : y <= x
 
 \* ---- verdicts -----------------------------------------------------------------
 PAllOk(p) == \A c \in DOMAIN p.cons : p.cons[c].ok
